@@ -232,6 +232,11 @@ func GenC02Broken(seed uint64, tier string) *Plan {
 			st.Chunk = g.chunk()
 			if g.r.Chance(0.9) {
 				st.Faults = []Fault{g.bodyFault(len(st.Body))}
+				if g.r.Chance(0.12) {
+					// a second fault inside the handling of the first: the
+					// clean-up after the broken upload meets a disk error
+					st.Faults = append(st.Faults, g.diskFault(10))
+				}
 			}
 			g.entityHeaders(st)
 			g.commit(st, nil)
